@@ -243,9 +243,32 @@ func c06RolesJob(tier string) *SeqJob {
 		KeyCharacters:   tally.ValidCharacters{Ranges: tally.AlphanumericRange, Characters: tally.UnderscoreDashCharacters},
 		ValueCharacters: tally.ValidCharacters{Ranges: tally.AlphanumericRange, Characters: tally.UnderscoreCharacters}, ReplacementCharacter: '!'}})
 	stockIdx := len(cfgs) - 1
+	// the extra characters of the three classes are prefixes of ONE array {'.', '-', '_', ':'} (an application that
+	// writes its character sets as sub-slices of one list): each prefix has spare capacity that belongs to the longer
+	// ones. The next configuration (the companion of the last one is the first) has another replacement character.
+	// The reference is written out literally, with slices of its own.
+	mkPrefixOpts := func() tally.SanitizeOptions {
+		allChars := []rune{'.', '-', '_', ':'} // a fresh array for every execution
+		return tally.SanitizeOptions{
+			NameCharacters:  tally.ValidCharacters{Ranges: tally.AlphanumericRange, Characters: allChars[:3]},
+			KeyCharacters:   tally.ValidCharacters{Ranges: tally.AlphanumericRange, Characters: allChars[:2]},
+			ValueCharacters: tally.ValidCharacters{Ranges: tally.AlphanumericRange, Characters: allChars[:1]}, ReplacementCharacter: '#'}
+	}
+	prefixRef := tally.SanitizeOptions{
+		NameCharacters:  tally.ValidCharacters{Ranges: []tally.SanitizeRange{{'a', 'z'}, {'A', 'Z'}, {'0', '9'}}, Characters: []rune{'.', '-', '_'}},
+		KeyCharacters:   tally.ValidCharacters{Ranges: []tally.SanitizeRange{{'a', 'z'}, {'A', 'Z'}, {'0', '9'}}, Characters: []rune{'.', '-'}},
+		ValueCharacters: tally.ValidCharacters{Ranges: []tally.SanitizeRange{{'a', 'z'}, {'A', 'Z'}, {'0', '9'}}, Characters: []rune{'.'}}, ReplacementCharacter: '#'}
+	cfgs = append(cfgs, struct {
+		name string
+		o    tally.SanitizeOptions
+	}{"extra characters as prefixes of one array: name .-_ / key .- / value .  repl #", mkPrefixOpts()})
+	prefixIdx := len(cfgs) - 1
 	refOf := func(ci int) tally.SanitizeOptions {
 		if ci == stockIdx {
 			return stockRef
+		}
+		if ci == prefixIdx {
+			return prefixRef
 		}
 		return cfgs[ci].o
 	}
@@ -270,7 +293,14 @@ func c06RolesJob(tier string) *SeqJob {
 				_ = append(tally.UnderscoreCharacters, ':')
 				_ = append(tally.UnderscoreDashCharacters, '%')
 				cj := (ci + 1) % len(cfgs)
-				sans := []tally.Sanitizer{tally.NewSanitizer(c.o), tally.NewSanitizer(cfgs[cj].o)}
+				co := cfgs[cj].o
+				if ci == prefixIdx {
+					c.o = mkPrefixOpts()
+				}
+				if cj == prefixIdx {
+					co = mkPrefixOpts()
+				}
+				sans := []tally.Sanitizer{tally.NewSanitizer(c.o), tally.NewSanitizer(co)}
 				refs := []tally.SanitizeOptions{refOf(ci), refOf(cj)}
 				if cap(c.o.NameCharacters.Ranges) > len(c.o.NameCharacters.Ranges) {
 					// the application goes on using its slice: this writes into the spare capacity
